@@ -75,9 +75,11 @@ def vc_do_codegen(H):
 
         def check_sorted(d, what):
             ok = isinstance(d, CompSeq) and d.kind == 'dict' and d.src is items
-            ctx.oblige(f'{what}: is the codegen dict re-sorted over the canonical blade sequence', bool(ok))
             if not ok:
-                return
+                # re-sorted some other way (sorted() with a key, a loop, ..): this contract reads one dict comprehension over
+                # the canonical blade sequence only -> undecided, the bounded stand-ins decide
+                raise OutOfSubset(f'{what}: the codegen dict is not re-sorted by one dict comprehension over algebra.canon2bin (contract does not apply)')
+            ctx.oblige(f'{what}: is the codegen dict re-sorted over the canonical blade sequence', True)
             i = SInt(z3.Int('i'))
             ctx.assume(z3.And(i.t >= 0, i.t < nbl.t))
             cond, (k, v) = d.at(i)
@@ -108,9 +110,10 @@ def vc_do_codegen(H):
             ctx.oblige('lambdify cse == algebra.cse', ct is cse or ct == use_cse)
             okp = isinstance(exprs, CompPart) and exprs.part == 'values' and len(made) == 1 and isinstance(made[0][0], CompPart) \
                 and made[0][0].part == 'keys' and made[0][0].base is exprs.base and made[0][1] == 'FUNC'
-            ctx.oblige('CodegenOutput(keys, func): keys and the expressions given to lambdify are the two halves of one sorted dict', bool(okp))
-            if okp:
-                check_sorted(exprs.base, 'lambdify')
+            if not okp:
+                raise OutOfSubset('do_codegen: keys and the expressions given to lambdify are not the keys() / values() of one dict (contract does not apply)')
+            ctx.oblige('CodegenOutput(keys, func): keys and the expressions given to lambdify are the two halves of one sorted dict', True)
+            check_sorted(exprs.base, 'lambdify')
             ctx.oblige('returns CodegenOutput(keys, func)', isinstance(r, tuple) and r[0] == 'CodegenOutput')
         else:
             ctx.oblige('a function is built (func_builder or lambdify)', False)
